@@ -33,7 +33,7 @@ def gen(rng, depth):
             return E.num(Fraction(rng.randint(1, 9), rng.choice([2, 3, 4, 7])))
         return E.num(Fraction(rng.choice(["0.5", "2.25", "0.125", "1.75"])))
     k = rng.choice(["add", "add", "mul", "mul", "sub", "div", "pow-int", "pow-neg", "pow-half", "pow-nested", "pow-numbase", "neg",
-                    "f", "g", "builtin", "max", "sum", "mod"])
+                    "f", "g", "builtin", "builtin", "max", "sum", "mod"])
     a, b = gen(rng, depth - 1), gen(rng, depth - 1)
     if k in ("add", "mul", "sub"):
         return E.op(k, a, b)
@@ -57,6 +57,16 @@ def gen(rng, depth):
         return E.fun("f", a)
     if k == "g":
         return E.fun("g", a, b)
+    if k == "builtin" and rng.random() < 0.5:
+        # the whole table of built-in functions, with every arity the interpreter accepts
+        one = ["sqrt", "cbrt", "abs", "sin", "cos", "tan", "cot", "sec", "csc", "asin", "atan", "sinh", "cosh", "tanh", "exp", "log",
+               "log2", "log10", "exp2", "gamma", "heaviside", "frac", "re", "im", "floor", "ceiling", "round", "nlz", "lambertw"]
+        r = rng.random()
+        if r < 0.6:
+            return E.fun(rng.choice(one), E.sym(rng.choice(SYMS)) if rng.random() < 0.6 else a)
+        if r < 0.8:
+            return E.fun("round", a, rng.choice([E.num(2), E.num(1), E.num(-1), E.sym("K")]))
+        return E.fun(rng.choice(["multiplicity", "log", "mod"]), a, b)
     if k == "builtin":
         return rng.choice([E.op("ceil", E.op("div", a, E.num(2))), E.op("floor", E.op("div", a, E.num(3))), E.fun("log2", E.sym(rng.choice(SYMS))),
                            E.fun("sin", E.sym("x")), E.fun("gamma", E.sym("y")), E.fun("exp", E.sym("x"))])
